@@ -269,6 +269,8 @@ def compile_plan(plan, world, root):
     lines.append("budget %d" % budget)
     if plan.get("tty"):
         lines.append("tty 1")
+    if plan.get("clock_jump") is not None:
+        lines.append("clock_jump %d %d" % (plan["clock_jump"][0], plan["clock_jump"][1]))
     if plan.get("fifo_block") is not None:
         lines.append("fifo_block %d" % plan["fifo_block"])
     return "\n".join(lines) + "\n"
